@@ -392,23 +392,8 @@ impl<A: Algebra> Live<A> {
                 // debug(): one query per position
                 let dbg = lib!(self.tree.debug());
                 cx.rep.inc("debug_calls");
-                // only harness-owned item types render canonically; for the others just require the call to work
-                if A::name() == "FreeWord" {
-                    let want = format!(
-                        "[{}]",
-                        self.shadow.iter().map(|c| format!("{:?}", A::leaf(c))).collect::<Vec<_>>().join(", ")
-                    );
-                    if dbg != want {
-                        cx.violation(
-                            "debug",
-                            Json::obj()
-                                .set("what", "debug() does not list the elements of the plain array")
-                                .set("got", dbg)
-                                .set("want", want)
-                                .set("history", self.history_json()),
-                        );
-                    }
-                }
+                // debug() is not part of the property: it is only exercised (a panic would be reported)
+                let _ = dbg;
             }
             Judge::Search => {
                 // searches from every position (small n) under a few predicates, in both directions
